@@ -53,6 +53,30 @@ type C10Case struct {
 func c10Gen(t *rapid.T, cx *h.Ctx) C10Case {
 	var c C10Case
 	p := genPair(t, cx, false, nil)
+	sharedEnd := rapid.IntRange(0, 3).Draw(t, "sharedend") == 0
+	if sharedEnd {
+		// lines that meet at one vertex with their starts or ends in drawn combinations, and a second operand that touches
+		// exactly that vertex: the vertex's label then depends on every incident edge being recorded consistently
+		vx, vy := float64(rapid.IntRange(-3, 3).Draw(t, "vx")), float64(rapid.IntRange(-3, 3).Draw(t, "vy"))
+		dirs := [][2]float64{{1, 0}, {1, 1}, {0, 1}, {-1, 1}, {-1, 0}, {-1, -1}, {0, -1}, {1, -1}}
+		first := rapid.IntRange(0, 7).Draw(t, "firstdir")
+		a := gm.G{T: rapid.SampledFrom([]string{gm.MultiLineString, gm.GeometryCollection}).Draw(t, "sharedtype")}
+		for i, k := 0, rapid.IntRange(2, 4).Draw(t, "spokes"); i < k; i++ {
+			d := dirs[(first+i*rapid.IntRange(1, 2).Draw(t, "dirstep"))%8]
+			l := float64(rapid.IntRange(1, 3).Draw(t, "spokelen"))
+			co := gm.Fs(vx, vy, vx+l*d[0], vy+l*d[1])
+			if rapid.Bool().Draw(t, "inwards") {
+				co = gm.Fs(vx+l*d[0], vy+l*d[1], vx, vy)
+			}
+			a.Mem = append(a.Mem, gm.G{T: gm.LineString, Co: co})
+		}
+		b := []gm.G{{T: gm.Point, Co: gm.Fs(vx, vy)},
+			{T: gm.LineString, Co: gm.Fs(vx, vy, vx+5, vy-7)},
+			{T: gm.LineString, Co: gm.Fs(vx-5, vy+7, vx+5, vy-7)},
+			{T: gm.MultiPoint, Mem: []gm.G{{T: gm.Point, Co: gm.Fs(vx, vy)}, {T: gm.Point, Co: gm.Fs(vx+40, vy)}}},
+			{T: gm.Polygon, Rings: [][]gm.F{gm.Fs(vx, vy, vx+5, vy-7, vx+7, vy-5, vx, vy)}}}[rapid.IntRange(0, 4).Draw(t, "toucher")]
+		p = PairCase{A: a, B: b, Family: "shared-endpoint"}
+	}
 	c.Pool = append(c.Pool, p.A, p.B)
 	c.Pool = append(c.Pool, genOne(t, cx, true).G)
 	c.Pool = append(c.Pool, gen.Structure(t, gen.Opts{CT: -1, ValidShapes: true, AllowZero: true,
@@ -74,6 +98,14 @@ func c10Gen(t *rapid.T, cx *h.Ctx) C10Case {
 			s.Recv = rapid.IntRange(0, 1).Draw(t, "heavyrecv")
 		}
 		c.Steps = append(c.Steps, s)
+	}
+	if sharedEnd {
+		// every overlay / relate function on that pair, in both argument orders
+		for _, h := range heavy {
+			for recv := 0; recv < 2; recv++ {
+				c.Steps = append(c.Steps, C10Step{Kind: "func", Recv: recv, CallIdx: h, Ints: []int{1, 2, 3}})
+			}
+		}
 	}
 	c.Via = rapid.SliceOfN(rapid.IntRange(0, 4), 4, 4).Draw(t, "via")
 	for i := rapid.IntRange(1, 3).Draw(t, "ninvalid"); i > 0; i-- {
